@@ -3,6 +3,7 @@ package work
 import (
 	"fmt"
 	"reflect"
+	"strings"
 	"sync"
 
 	"github.com/philpearl/plenc/plenccodec"
@@ -273,6 +274,22 @@ func c09Case(c *core.Ctx, idx int) {
 			l.Index(i).Field(0).Set(mk(j + i))
 		}
 		v.Field(3).Set(l)
+		if j == 5 || j == 11 {
+			// present values far longer than anything a codec may treat specially (64 KiB, 256 KiB, 1 MiB)
+			ln := []int{65535, 65536, 262144, 262145, 1<<20 + 1}[(idx+j)%5]
+			if N == model.NullStringT {
+				nv := reflect.New(N).Elem()
+				nv.FieldByName("String").SetString(strings.Repeat("s", ln))
+				nv.FieldByName("Valid").SetBool(true)
+				v.Field(5).Set(nv)
+			}
+			if T.Kind() == reflect.String {
+				p := reflect.New(T)
+				p.Elem().SetString(strings.Repeat("p", ln))
+				v.Field(0).Set(p)
+			}
+			rec.Count("long_present_values", 1)
+		}
 
 		rec.Eval(1)
 		noteShape(c, tc, v)
